@@ -84,7 +84,8 @@ theorem extract_faithful_int (str : List Nat) (base0 : Nat) (hb : base0 ≤ 36) 
     let r := extractParts s.1 s.2
     (s.1.digits = [] ∧ r = (p.mant.val * p.base ^ e, 0)) ∨
     (∃ G : Nat, r.2 + 31 = (G : Int) ∧ FaithfulN r.1 (p.mant.val * p.base ^ e * 2 ^ 31) (2 ^ G) ∧
-      NearestUpN r.1 (p.mant.val * p.base ^ e * 2 ^ 31) (2 ^ G) ∧ 2 ^ 52 ≤ r.1 ∧ r.1 < 2 ^ 53) := by
+      NearestUpN r.1 (p.mant.val * p.base ^ e * 2 ^ 31) (2 ^ G) ∧
+      (2 ^ 54 - 1) * 2 ^ G ≤ 4 * (p.mant.val * p.base ^ e * 2 ^ 31) ∧ 2 ^ 52 ≤ r.1 ∧ r.1 < 2 ^ 53) := by
   obtain ⟨hi, h1, h36⟩ := parseNumber_inv str base0 hb p h
   simp only
   rw [scale_pos_eq]
@@ -109,6 +110,7 @@ theorem extract_faithful_frac (str : List Nat) (base0 : Nat) (hb : base0 ≤ 36)
     ∃ G : Nat, r.2 + 31 * ((shamtBase + a / shamtDiv - 2 : Nat) : Int) = (G : Int) ∧
       FaithfulN r.1 (p.mant.val * bigBase ^ (shamtBase + a / shamtDiv - 2)) (p.base ^ a * 2 ^ G) ∧
       NearestUpN r.1 (p.mant.val * bigBase ^ (shamtBase + a / shamtDiv - 2)) (p.base ^ a * 2 ^ G) ∧
+      (2 ^ 54 - 1) * (p.base ^ a * 2 ^ G) ≤ 4 * (p.mant.val * bigBase ^ (shamtBase + a / shamtDiv - 2)) ∧
       2 ^ 52 ≤ r.1 ∧ r.1 < 2 ^ 53 := by
   obtain ⟨hi, h1, h36⟩ := parseNumber_inv str base0 hb p h
   have hnz' : p.mant.digits = [] → p.mant.first ≠ 0 := by intro hd hf; exact hnz ⟨by simp [hd], hf⟩
@@ -119,9 +121,9 @@ theorem extract_faithful_frac (str : List Nat) (base0 : Nat) (hb : base0 ≤ 36)
   have hlen := scaleNeg_length p.mant p.base a h1 h36 hi hnz' hv
   have htop := scaleNeg_topnz p.mant p.base a h1 h36 hi hnz' hv
   have hfirst : (scaleNeg p.mant p.base a).first < bigBase := scaleNeg_first_lt p.mant p.base a h1 h36 hi
-  obtain ⟨G, he, hF, hN, hlo, hhi⟩ := extract_faithful_neg_core (scaleNeg p.mant p.base a)
+  obtain ⟨G, he, hF, hN, hM, hlo, hhi⟩ := extract_faithful_neg_core (scaleNeg p.mant p.base a)
     (-(((shamtBase + a / shamtDiv) * nbit : Nat) : Int)) _ _ (Nat.pow_pos h1) hfirst hl htop hlen hu
-  refine ⟨G, ?_, hF, hN, hlo, hhi⟩
+  refine ⟨G, ?_, hF, hN, hM, hlo, hhi⟩
   rw [he]
   have h2 : 2 ≤ shamtBase + a / shamtDiv := le_trans (by decide : 2 ≤ shamtBase) (Nat.le_add_right _ _)
   generalize shamtBase + a / shamtDiv = S at *
@@ -152,11 +154,37 @@ theorem within_one_ulp (t N D : Nat) (hD : 0 < D) (h : FaithfulN t N D) : t * D 
 
 /-- ★ the last step `ldexp((double) t, e2)` adds no error in the normal range: for the normalised significands produced
     above (2^52 ≤ t < 2^53) and −1074 ≤ e2 ≤ 971 the returned double is exactly `t·2^e2`.  (Subnormal results and
-    overflow go through the exact round-to-nearest-even of `ldexpBits`; that second rounding is covered by
-    correspondence and the oracle only — see `print17_roundtrip` note in notes/C13.md.) -/
+    overflow: `ldexp_faithful_subnormal`, `ldexp_overflow_faithful` below.) -/
 theorem ldexp_exact_normal (t : Nat) (e : Int) (hlo : 2 ^ 52 ≤ t) (hhi : t < 2 ^ 53) (he1 : -1074 ≤ e) (he2 : e ≤ 971) :
     decodeBits (ldexpBits t e) = (t, e) :=
   JanetModel.Strtod.ldexp_exact_normal t e hlo hhi he1 he2
+
+/-! ### the second rounding inside `ldexp` (subnormal results, overflow) keeps the result adjacent
+
+`convert` returns `±ldexp((double) t, e2)` with (t, e2) from `extract_faithful_*` (2^52 ≤ t < 2^53, or the exact one-digit
+integer).  Three regimes cover every e2:  −1074 ≤ e2 ≤ 971 → `ldexp_exact_normal` (no second rounding);
+e2 < −1074 → `ldexp_faithful_subnormal`;  e2 ≥ 972 → `ldexp_overflow_faithful`;  one-digit integers → `ldexp_exact_int`. -/
+
+/-- ★ subnormal results: if `t` is a faithful rounding of the exact value `N/D` (units 2^e, e < −1074), the pattern
+    returned by the correctly rounded `ldexp` — a count ≤ 2^52 of 2^−1074 units — is the floor or, only when inexact,
+    the ceiling of the exact value in those units: one of the two adjacent doubles, the value itself when representable.
+    (Double rounding: the result need not be the nearest one any more; the property does not ask that.) -/
+theorem ldexp_faithful_subnormal (t N D : Nat) (e : Int) (hD : 0 < D) (ht0 : t ≠ 0) (ht : t < 2 ^ 53) (he : e < -1074)
+    (hF : FaithfulN t N D) :
+    FaithfulN (ldexpBits t e) N (D * 2 ^ (-1074 - e).toNat) ∧ ldexpBits t e ≤ 2 ^ 52 :=
+  JanetModel.Strtod.ldexp_faithful_subnormal t N D e hD ht0 ht he hF
+
+/-- ★ overflow: for e ≥ 972 `ldexp` returns +inf, and with the magnitude fact supplied by `extract_faithful_*` the exact
+    value `N/D·2^e` is above DBL_MAX = (2^53−1)·2^971, whose two neighbours are DBL_MAX and +inf. -/
+theorem ldexp_overflow_faithful (t N D : Nat) (e : Nat) (hD : 0 < D) (hlo : 2 ^ 52 ≤ t) (hhi : t < 2 ^ 53) (he : 972 ≤ e)
+    (hmag : (2 ^ 54 - 1) * D ≤ 4 * N) :
+    ldexpBits t (e : Int) = infBits ∧ (2 ^ 53 - 1) * 2 ^ 971 * D < N * 2 ^ e :=
+  ⟨ldexp_overflow_bits t e hlo hhi (by omega), overflow_value_gt_dblmax N D e hD hmag he⟩
+
+/-- ★ integers below 2^53 (in particular the one-digit case of `bignat_extract`) pass through `ldexp(·, 0)` exactly -/
+theorem ldexp_exact_int (t : Nat) (ht0 : t ≠ 0) (ht : t < 2 ^ 53) :
+    decodeBits (ldexpBits t 0) = (t * 2 ^ (53 - bitLen t), -((53 - bitLen t : Nat) : Int)) :=
+  JanetModel.Strtod.ldexp_exact_int t ht0 ht
 
 /-! ### the size estimate used by the short-circuits of `convert` -/
 
